@@ -11,9 +11,11 @@ pub(super) fn parse_array<'a>(src: &mut &'a [u8]) -> io::Result<Array<'a>> {
     use super::parse_string;
 
     let subtype = parse_subtype(src)?;
-    maybe_consume_delimiter(src)?;
 
-    let buf = parse_string(src);
+    // The values end at the field terminator. Split them off first so that an empty array
+    // followed by another field (`B:c\tNH:i:1`) is not mistaken for a missing delimiter.
+    let mut buf: &[u8] = parse_string(src);
+    maybe_consume_delimiter(&mut buf)?;
 
     match subtype {
         Subtype::Int8 => Ok(Array::Int8(Box::new(Values::new(buf)))),
